@@ -20,7 +20,10 @@ import (
 // judgeC01 checks the result-set invariants of C01 on one case.
 // Returns (signature, message) of the first violation, or "", "".
 func judgeC01(rec *stats.Rec, c engine.Case) (string, string, *engine.Run) {
-	run := engine.Execute(c, false)
+	return judgeC01Run(rec, c, engine.Execute(c, false))
+}
+
+func judgeC01Run(rec *stats.Rec, c engine.Case, run *engine.Run) (string, string, *engine.Run) {
 	if !run.Parsed {
 		rec.Class("parse_rejected")
 		return "", "", run
@@ -123,6 +126,19 @@ func TestC01(t *testing.T) {
 			}
 		}
 	}
+	// home sweep: every lint's own single-edit neighbourhood through the framework path
+	homeSweep(rec, stats.Scale(2, 3), false, "c01", func(c engine.Case, run *engine.Run) (string, string) {
+		sig, msg, _ := judgeC01Run(rec, c, run)
+		if msg == "" && run.Parsed && run.RS != nil {
+			for _, r := range run.RS.Results {
+				if r.Status > lint.Pass {
+					rec.NT(caseHash(c))
+					break
+				}
+			}
+		}
+		return sig, msg
+	}, func(s string) { t.Fatalf("%s", s) })
 	rapidRun(t, "generated", perShard(stats.Scale(40000, 1500000)), func(rt *rapid.T) {
 		c := drawObject(rt, 4, true)
 		drawRegistry(rt, &c)
